@@ -128,7 +128,13 @@ func (k *KerberosProxy) forward(realm string, data []byte) (resp []byte, err err
 		kdcs = append(kdcs, Kdc{Realm: realm, Host: tcpKdcs[i], Proto: "tcp"})
 	}
 
+	// the proxied message carries the 4 byte length prefix used over tcp
+	if len(data) < 4 {
+		return nil, fmt.Errorf("kerberos message of %d bytes is too short", len(data))
+	}
+
 	replies := make(chan []byte, len(kdcs))
+	pending := 0
 	for i := range kdcs {
 		conn, err := net.Dial(kdcs[i].Proto, kdcs[i].Host)
 
@@ -151,17 +157,22 @@ func (k *KerberosProxy) forward(realm string, data []byte) (resp []byte, err err
 		}
 
 		kdcs[i].Conn = conn
+		pending++
 		go awaitReply(conn, kdcs[i].Proto == "udp", replies)
 	}
 
-	reply := <-replies
+	// wait for the first kdc that gives a reply; a kdc that fails reports nil.
+	// Only kdcs that were actually contacted will report.
+	var reply []byte
+	for ; pending > 0 && reply == nil; pending-- {
+		reply = <-replies
+	}
 
-	// close all the connections and return the first reply
+	// close all the connections, which also ends the remaining readers
 	for kdc := range kdcs {
 		if kdcs[kdc].Conn != nil {
 			kdcs[kdc].Conn.Close()
 		}
-		<-replies
 	}
 
 	if reply != nil {
